@@ -268,7 +268,7 @@ func runProperty(spec *PropSpec, tier string, seed, workers int) int {
 					continue
 				}
 				violations++
-				dir := filepath.Join(verifDir, "replays", spec.ID)
+				dir := filepath.Join(outDir, "replays", spec.ID)
 				os.MkdirAll(dir, 0o755)
 				tp.Label, tp.Kind = f.Label, f.Kind
 				b, _ := json.MarshalIndent(tp, "", " ")
@@ -324,24 +324,24 @@ func runProperty(spec *PropSpec, tier string, seed, workers int) int {
 		solverS += r.SolverS
 	}
 	cov := map[string]interface{}{
-		"states":                        totalStates,
-		"transitions":                   totalTrans,
-		"traces_validated_against_impl": tvOK,
-		"samples":                       samples,
-		"explanation":                   "bounded symbolic execution of the repository's SSA (regenerated from /repo on this run); states = decision-tree nodes, transitions = feasible edges; every branch feasibility and every assertion decided by z3 over bit-vector terms",
-		"functions_encoded":             fnList,
-		"bounds":                        spec.Bounds(tier),
-		"outside_bounds":                spec.Outside,
-		"harnesses":                     reports,
-		"solver":                        "z3 " + solverVersion(),
-		"queries_discharged":            queries,
-		"solver_s":                      solverS,
-		"known_findings_seen":           keys(knownSeen),
-		"unconfirmed_counterexamples":   unconfirmed,
-		"inconclusive":                  inconclusive,
-		"violation_tapes":               violationTapes,
+		"states":                              totalStates,
+		"transitions":                         totalTrans,
+		"traces_validated_against_impl":       tvOK,
+		"samples":                             samples,
+		"explanation":                         "bounded symbolic execution of the repository's SSA (regenerated from /repo on this run); states = decision-tree nodes, transitions = feasible edges; every branch feasibility and every assertion decided by z3 over bit-vector terms",
+		"functions_encoded":                   fnList,
+		"bounds":                              spec.Bounds(tier),
+		"outside_bounds":                      spec.Outside,
+		"harnesses":                           reports,
+		"solver":                              "z3 " + solverVersion(),
+		"queries_discharged":                  queries,
+		"solver_s":                            solverS,
+		"known_findings_seen":                 keys(knownSeen),
+		"unconfirmed_counterexamples":         unconfirmed,
+		"inconclusive":                        inconclusive,
+		"violation_tapes":                     violationTapes,
 		"repo_files_with_substituted_imports": rewritten,
-		"exhaustive":                    len(inconclusive) == 0,
+		"exhaustive":                          len(inconclusive) == 0,
 	}
 	ev["property_id"] = spec.ID
 	ev["tier"] = tier
@@ -352,8 +352,8 @@ func runProperty(spec *PropSpec, tier string, seed, workers int) int {
 	ev["wall_s"] = wall
 	ev["violations"] = violations
 	b, _ := json.MarshalIndent(ev, "", " ")
-	os.MkdirAll(filepath.Join(verifDir, "evidence"), 0o755)
-	os.WriteFile(filepath.Join(verifDir, "evidence", spec.ID+".json"), b, 0o644)
+	os.MkdirAll(filepath.Join(outDir, "evidence"), 0o755)
+	os.WriteFile(filepath.Join(outDir, "evidence", spec.ID+".json"), b, 0o644)
 	fmt.Printf("property=%s tier=%s states=%d queries=%d violations=%d known=%d inconclusive=%d wall=%.1fs\n",
 		spec.ID, tier, totalStates, queries, violations, len(knownSeen), len(inconclusive), wall)
 	if violations > 0 {
